@@ -136,7 +136,7 @@ C_BOUNDARY = {}      # numpy functions without symbolic semantics that were ente
 
 
 def _has_sym(x, depth=0):
-    if isinstance(x, (SV, SC, SDyad)):
+    if isinstance(x, (SV, SC, SDyad, SAbs)):
         return True
     if isinstance(x, real_np.ndarray):
         return x.dtype == object and any(isinstance(v, (SV, SC, SDyad)) for v in x.reshape(-1))
@@ -146,8 +146,15 @@ def _has_sym(x, depth=0):
 
 
 def _make_concrete(x, depth=0):
+    from .values import _concretise
     if isinstance(x, SV):
         return bool(x) if x.kind == 'b' else int(x)
+    if isinstance(x, SDyad):
+        return _concretise(x)
+    if isinstance(x, SC):
+        return complex(_concretise(x.re), _concretise(x.im))
+    if isinstance(x, SAbs):
+        return abs(_make_concrete(x.c))
     if isinstance(x, real_np.ndarray) and x.dtype == object:
         return x.view(SArr)._concrete()
     if isinstance(x, (list, tuple)) and depth < 2:
@@ -230,6 +237,18 @@ def _objarr(shape, fill):
     a = real_np.empty(shape, dtype=object)
     a[...] = fill
     return a.view(SArr)
+
+
+def _int_dtype(dtype):
+    """a signed 64-bit integer dtype request (int, numpy.int_, numpy.int64, 'int64')"""
+    if dtype is None:
+        return False
+    if dtype is int:
+        return True
+    try:
+        return real_np.dtype(dtype) == real_np.dtype(real_np.int64)
+    except TypeError:
+        return False
 
 
 def _is_bool_dtype(dtype):
@@ -373,7 +392,11 @@ class NPShim:
     def asarray(self, x, dtype=None, **kw):
         if isinstance(x, real_np.ndarray) and dtype is None:
             return x
-        return self.array(x, dtype=dtype)
+        if isinstance(x, real_np.ndarray) and x.dtype == object and not isinstance(x, UArr) and _int_dtype(dtype) \
+                and not any(_is_boolish(v) for v in x.reshape(-1)):
+            return x        # object arrays of integers stand for int64 arrays: asking for the dtype they have copies nothing
+        r = self.array(x, dtype=dtype)
+        return r.view(SArr) if isinstance(r, UArr) and _int_dtype(dtype) else r
 
     # ---- reductions / elementwise with symbolic semantics
     def sum(self, a, axis=None, **kw):
